@@ -93,6 +93,7 @@ BREAKING = [
     {"id": "C10-clear-only-pos", "props": ["C10"], "edits": [E("neural/modeling.py", "        del self.pos\n        del self.neg", "        del self.pos")]},
     {"id": "C10-upper-slot", "props": ["C10", "C09"], "edits": [E("neural/modeling.py", "            self.bind[0] = lambda x, p, ub=max, k=kwargs: bound(x, p, ub, **k)", "            self.bind[1] = lambda x, p, ub=max, k=kwargs: bound(x, p, ub, **k)")]},
     {"id": "C10-reduction-lost", "props": ["C10"], "edits": [E("neural/modeling.py", "                acc.reduction(reduction)", "                acc.reduction()")]},
+    {"id": "C10-scaled-range-denominator", "props": ["C10"], "edits": [E("functional/bounding.py", "pos = bound_upper_scaled_multiplicative(param, pos, max, max - min)", "pos = bound_upper_scaled_multiplicative(param, pos, max, max)")]},
     # ---------------- C11
     {"id": "C11-adapt-sum-batch", "props": ["C11"], "edits": [E("neural/functional/neuron_adaptation.py", "return threshold + torch.sum(adaptations, dim=-1)", "return threshold + torch.sum(adaptations, dim=0)")]},
     {"id": "C11-direct-normalise", "props": ["C11"], "edits": [E("neural/connections/linear.py", "            res = res * self.weight\n\n        return res.view(-1, *self.outshape)", "            res = res * self.weight / res.amax()\n\n        return res.view(-1, *self.outshape)")]},
